@@ -590,6 +590,10 @@ class SymDatetime:
             out += ['.', text.padded(u, 6)]
         if self.tzinfo is not None:
             off = _off_us(self.tzinfo, self)
+            if off == 0:
+                # concrete text, so that literal patterns such as '[+-]00:00$' see real digits
+                out.append('+00:00')
+                return ''.join(out)
             if off < 0:
                 sign, off = '-', -off
             else:
